@@ -97,6 +97,12 @@ BinderCases == {
 \* ------------------------------------------------------------------ define-fun
 DefCases == {
   Case(Prelude \o <<DefFun("k0", <<>>, SInt, SPlus(x, Nm(1))), Asrt(Lt(A("k0"), y))>>, "accept", "define-0ary"),
+  \* a definition whose body has another sort than the declared result is ill-sorted text, with or without parameters
+  Case(Prelude \o <<DefFun("fr", <<<<"n", SInt>>>>, SReal, SPlus(A("n"), Nm(1))), Asrt(Eq(Ap("fr", <<y>>), y))>>, "reject", "define-int-body-real-result"),
+  Case(Prelude \o <<DefFun("kr", <<>>, SReal, SPlus(x, Nm(1))), Asrt(Lt(A("kr"), r))>>, "reject", "define-0ary-int-body-real-result"),
+  Case(Prelude \o <<DefFun("fb", <<<<"n", SInt>>>>, SInt, Lt(A("n"), x)), Asrt(Eq(Ap("fb", <<y>>), y))>>, "reject", "define-bool-body-int-result"),
+  Case(Prelude \o <<DefFun("fi", <<<<"n", SReal>>>>, SInt, A("n")), Asrt(Eq(Ap("fi", <<r>>), x))>>, "reject", "define-real-body-int-result"),
+  Case(Prelude \o <<DefFun("ge1", <<<<"n", SInt>>>>, SBool, Ap("<=", <<Nm(1), A("n")>>)), Asrt(Ap("ge1", <<r>>))>>, "reject", "define-applied-to-other-sort"),
   Case(Prelude \o <<DefFun("inc", <<<<"n", SInt>>>>, SInt, SPlus(A("n"), Nm(1))), Asrt(Lt(Ap("inc", <<x>>), Ap("inc", <<Ap("inc", <<y>>)>>)))>>,
        "accept", "define-param-nested-use"),
   Case(Prelude \o <<DefFun("sh", <<<<"x", SInt>>>>, SBool, Lt(x, y)), Asrt(Ap("sh", <<SPlus(x, Nm(2))>>))>>, "accept", "define-param-named-as-global"),
